@@ -237,7 +237,7 @@ def field_lines(rng, f, kind, want_ok=True):
     if de == "DSplitWs":
         n = rng.choice([1, 1, 2, 3])
         ws = [rng.choice(WS_WORDS) for _ in range(n)]
-        if rng.random() < 0.5: return [" ".join(ws)], []
+        if rng.random() < 0.5 or any(w.startswith("#") for w in ws): return [" ".join(ws)], []
         if rng.random() < 0.5: return ws, []
         return [""] + ws, []
     if de == "DSplitNl":
